@@ -44,7 +44,7 @@ def specs_for(ctx):
     n_worlds = 60 if ctx.quick else 1500
     for _ in range(n_worlds):
         w = random_world(rng, n_imports=rng.randint(5, 60))
-        ep = RuleEpisode(w, render=rng.choice(["ident", "clean"]))
+        ep = RuleEpisode(w, render=rng.choice(["ident", "clean", "adv", "adv2"]))
         for rule in rc.sampled_rules(rng, w.modules, 50, max_batch=3):
             ep.eval(rule)
         _queries(ep, rng, w.modules, 15)
